@@ -8,6 +8,7 @@
     R <state> <te> <now> | <obs>
     T <now> | <obs>
     X <id> <reason 1 user|2 owner> <now> | <obs>
+    P <paused 0|1> <now> | <obs>
     <obs> = <rc> <depth> <inDowntime> <n> (<id> <trigger>)*n <m> (<ev> <id> <count>)*m
   Output lines:
     MISMATCH line=<n> case=<k> impl=<...> model=<...>
@@ -32,6 +33,7 @@ structure DSt where
   results : Nat := 0
   pumps : Nat := 0
   removes : Nat := 0
+  pauses : Nat := 0
   triggered : Nat := 0
   cascades : Nat := 0
   expired : Nat := 0
@@ -110,6 +112,10 @@ def parseOp (pre : List String) : Option Op :=
     let rs ← parseNat? rs
     let nw ← parseInt? nw
     if rs == 1 then pure (.remove id true nw) else if rs == 2 then pure (.remove id false nw) else none
+  | ["P", b, nw] => do
+    let b ← parseBool? b
+    let nw ← parseInt? nw
+    pure (.setPaused b nw)
   | _ => none
 
 /-- Resynchronise the model on the implementation after a mismatch is not possible in general (the
@@ -155,6 +161,7 @@ def handle (d : DSt) (n : Nat) (line : String) : IO DSt := do
         | .result _ _ _ => { d with results := d.results + 1 }
         | .pump _ => { d with pumps := d.pumps + 1 }
         | .remove _ _ _ => { d with removes := d.removes + 1 }
+        | .setPaused _ _ => { d with pauses := d.pauses + 1 }
       let cnt := fun (ev : Nat) => ((io.evs.filter (fun e => e.1 == ev)).map (·.2.2)).sum
       let trigIds := (io.evs.filter (fun e => e.1 == 3)).length
       let isPump := match op with | .pump _ => true | _ => false
@@ -170,4 +177,4 @@ def handle (d : DSt) (n : Nat) (line : String) : IO DSt := do
 def main : IO Unit := do
   let stdin ← IO.getStdin
   let d ← foldLines stdin handle ({} : DSt)
-  IO.println s!"STATS cases={d.caseNo} steps={d.steps} adds={d.adds} results={d.results} pumps={d.pumps} removes={d.removes} triggered={d.triggered} cascades={d.cascades} expired={d.expired} refused={d.refused} startreq={d.startReq} endreq={d.endReq} nontrivial={d.nontrivial} mismatches={d.mismatches} specfails={d.specfails}"
+  IO.println s!"STATS cases={d.caseNo} steps={d.steps} adds={d.adds} results={d.results} pumps={d.pumps} removes={d.removes} pauses={d.pauses} triggered={d.triggered} cascades={d.cascades} expired={d.expired} refused={d.refused} startreq={d.startReq} endreq={d.endReq} nontrivial={d.nontrivial} mismatches={d.mismatches} specfails={d.specfails}"
